@@ -70,7 +70,8 @@ struct Config {
     i64 stall_max_ns = 50 * 1000 * 1000;
     double start_delay_p = 0.0; // per created thread: probability that it starts late
     i64 start_delay_max_ns = 2 * 1000 * 1000;
-    std::vector<int> guided;  // if non-empty: replay these choices at multi-choice points, then fall back to policy
+    std::vector<int> guided;  // if non-empty: replay these choices at multi-choice points (-1: default rule), then fall back to policy
+    bool guided_default_tail = false; // after the guided list: default rule (keep the running thread, else lowest id) instead of the policy
     bool record_choices = false;
 };
 
